@@ -1,6 +1,7 @@
 """C10 - one misbehaving client cannot crash, corrupt or stall the bus."""
 import json
 import os
+import signal
 import shutil
 import socket
 import struct
@@ -232,6 +233,53 @@ class Scenario(object):
         ok = self.expect_eof(h, shape, "reserved-local-name:" + ("big-endian" if order == "B" else "little-endian"))
         self.part.sig("reserved", shape, order, "eof" if ok else "no-eof")
         h.close()
+
+    def attack_write_and_close(self):
+        """Messages that the bus itself answers (org.freedesktop.DBus.Peer handled inside libdbus when there is no
+        destination, driver methods, calls to nobody) written by a client that closes its socket at once: when the
+        message is dispatched its sender is already gone.  The bus must simply drop what it cannot send."""
+        rng = self.rng
+        h = self.hostile(hello=rng.random() < 0.6)
+        n = rng.randint(1, 4)
+        burst = b""
+        shapes = []
+        for _ in range(n):
+            shape = rng.choice(["peer-ping-nodest", "peer-ping-nodest", "peer-machineid-nodest", "peer-unknown-nodest", "peer-ping-bus",
+                                "driver-getid", "driver-listnames", "call-nobody", "call-echo", "hello-again"])
+            order = rng.choice("lB")
+            if shape.startswith("peer"):
+                member = {"peer-ping-nodest": b"Ping", "peer-ping-bus": b"Ping", "peer-machineid-nodest": b"GetMachineId",
+                          "peer-unknown-nodest": b"NoSuchMethod"}[shape]
+                _, d = h.build(1, path=rng.choice([b"/", b"/org/freedesktop/DBus", b"/x"]), iface=b"org.freedesktop.DBus.Peer", member=member,
+                               dest=b"org.freedesktop.DBus" if shape.endswith("bus") else None, order=order)
+            elif shape == "driver-getid":
+                _, d = h.build(1, path=b"/org/freedesktop/DBus", iface=b"org.freedesktop.DBus", member=b"GetId", dest=b"org.freedesktop.DBus", order=order)
+            elif shape == "driver-listnames":
+                _, d = h.build(1, path=b"/org/freedesktop/DBus", iface=b"org.freedesktop.DBus", member=b"ListNames", dest=b"org.freedesktop.DBus", order=order)
+            elif shape == "hello-again":
+                _, d = h.build(1, path=b"/org/freedesktop/DBus", iface=b"org.freedesktop.DBus", member=b"Hello", dest=b"org.freedesktop.DBus", order=order)
+            elif shape == "call-nobody":
+                _, d = h.build(1, path=b"/x", iface=b"com.example.H", member=b"M", dest=b"com.example.Nobody", order=order)
+            else:
+                _, d = h.build(1, path=b"/echo", iface=b"com.example.Echo", member=b"Other", dest=ECHO, sig=b"s", body=[b"bye"], order=order)
+            burst += d
+            shapes.append(shape)
+        stop = rng.random() < 0.5
+        self.steps.append("write-and-close %s%s" % (shapes, " (daemon stopped while writing)" if stop else ""))
+        self.part.count("attack:write-and-close")
+        if stop:
+            os.kill(self.daemon.pid, signal.SIGSTOP)      # the bytes and the EOF are both there when the bus reads next
+        try:
+            try:
+                h.send_bytes(burst)
+            except OSError:
+                pass
+            h.close()
+        finally:
+            if stop:
+                os.kill(self.daemon.pid, signal.SIGCONT)
+        for sh in set(shapes):
+            self.part.sig("write-and-close", sh, stop)
 
     def attack_sizes(self):
         rng = self.rng
@@ -466,7 +514,7 @@ class Scenario(object):
         n = rng.randint(20, 60)
         attacks = [(self.attack_corrupt, 10), (self.attack_sizes, 2), (self.attack_preauth, 3), (self.attack_flood, 1),
                    (self.attack_incomplete_conns, 1), (self.attack_prefix_close, 3), (self.attack_driver_fuzz, 3),
-                   (self.attack_reserved, 2)]
+                   (self.attack_reserved, 2), (self.attack_write_and_close, 3)]
         pool = [a for a, w in attacks for _ in range(w)]
         for _ in range(n):
             if not self.daemon.alive():
